@@ -24,6 +24,8 @@ type c09Cmd struct {
 	From    string
 	To      string
 	Cut     int // byte offset at which the input file ends (gob/json: anywhere; csv: a record boundary)
+	// Stale: an earlier, complete run left its (longer) output at the same -output path
+	Stale bool `json:",omitempty"`
 }
 
 func runC09Cmd(c c09Cmd) error {
@@ -56,8 +58,17 @@ func runC09Cmd(c c09Cmd) error {
 		return err
 	}
 	out := filepath.Join(dir, "out."+c.To)
+	if c.Stale {
+		old, _, err := vgen.EncodeAll(vgen.CodecByName(c.To), append(append([]vegeta.Result(nil), c.Results...), c.Results...))
+		if err != nil {
+			return err
+		}
+		if err := os.WriteFile(out, old, 0o644); err != nil {
+			return err
+		}
+	}
 	var eerr error
-	if perr := vh.Try(func() { eerr = encode([]string{in}, c.To, out) }); perr != nil {
+	if perr := vh.Try(func() { eerr = runEncode([]string{in}, c.To, out) }); perr != nil {
 		return fmt.Errorf("encode panics on a truncated %s file: %v", c.From, perr)
 	}
 	outData, err := os.ReadFile(out)
@@ -66,6 +77,9 @@ func runC09Cmd(c c09Cmd) error {
 	}
 	got, derr := vgen.DecodeAll(vgen.CodecByName(c.To).Dec(bytes.NewReader(outData)), len(c.Results)+1)
 	what := fmt.Sprintf("encode %s -> %s of a %d-record file cut at byte %d of %d (record ends %v; the command returned %v)", c.From, c.To, len(c.Results), cut, len(data), ends, eerr)
+	if c.Stale {
+		what += ", with the longer output of an earlier run at the output path"
+	}
 	if len(got) != k {
 		return fmt.Errorf("%s: the output holds %d records (then %v), %d were completely written before the cut", what, len(got), derr, k)
 	}
@@ -96,6 +110,7 @@ func TestC09EncodeCmd(t *testing.T) {
 		if c.Cut < 0 {
 			c.Cut = 0
 		}
+		c.Stale = rapid.IntRange(0, 3).Draw(t, "stale") == 0
 		k := sort.SearchInts(ends, c.Cut+1)
 		inside := k < len(ends) && (k == 0 || ends[k-1] != c.Cut)
 		sig, _ := json.Marshal(c)
